@@ -127,6 +127,8 @@ def binopTy (op : BinOp) (l r : Ty) : Option Ty :=
     else if compat l .string && compat r .string then some .string
     else match l, r with
       | .list a, .list b => if compat a b then some (.list (meet a b)) else none
+      | .list a, .unknown | .list a, .never => some (.list a)
+      | .unknown, .list b | .never, .list b => some (.list b)
       | _, _ => none
   | .sub | .mul | .div =>
     if isNumeric l && isNumeric r && compat l r then some (meet l r) else none
